@@ -98,14 +98,16 @@ func ardop.readFrameOfType(fType, reader, isTCP) (f, err)
   call binary.(bigEndian).Uint16#1 set gCrcWire := $r0
   at return#0 requires type-byte-error-reported: err != nil && $r1 == err
   call ardop.readFrameOfType requires prefix-resolved-only-after-a-good-read: err == nil
+  # a prefix never announces another prefix (a stream of '*' must not recurse without bound)
+  call ardop.readFrameOfType requires prefix-announces-a-real-type: $0 != '*'
   call io.ReadFull set gCrcReadErr := $r1
-  at return#7 requires crc-read-error-reported: gCrcReadErr != nil && $r1 == gCrcReadErr
+  at return#8 requires crc-read-error-reported: gCrcReadErr != nil && $r1 == gCrcReadErr
   call binary.(bigEndian).Uint16#1 requires crc-bytes-read-in-full: gCrcReadErr == nil
-  at return#3 requires read-error-reported: err != nil && $r1 == err
-  at return#4 requires too-short-for-a-type: len(data) < 5 && $r1 != nil
-  at return#8 requires mismatch-only-when-the-crc-differs: gCrcSum != gCrcWire && $r1 == ErrChecksumMismatch
-  at return#9 requires command-delivered-only-with-a-matching-crc: (isTCP || gCrcSum == gCrcWire) && $r1 == nil && typeis($r0, "cmdFrame") && len(unbox($r0)) == gCmdLen - 1
-  at return#10 requires data-delivered-only-with-a-matching-crc: (isTCP || gCrcSum == gCrcWire) && $r1 == nil && typeis($r0, "dFrame") && gFilled == len(data) && len(unbox($r0).data) == len(data) - 5 && len(unbox($r0).dataType) == 3
+  at return#4 requires read-error-reported: err != nil && $r1 == err
+  at return#5 requires too-short-for-a-type: len(data) < 5 && $r1 != nil
+  at return#9 requires mismatch-only-when-the-crc-differs: gCrcSum != gCrcWire && $r1 == ErrChecksumMismatch
+  at return#10 requires command-delivered-only-with-a-matching-crc: (isTCP || gCrcSum == gCrcWire) && $r1 == nil && typeis($r0, "cmdFrame") && len(unbox($r0)) == gCmdLen - 1
+  at return#11 requires data-delivered-only-with-a-matching-crc: (isTCP || gCrcSum == gCrcWire) && $r1 == nil && typeis($r0, "dFrame") && gFilled == len(data) && len(unbox($r0).data) == len(data) - 5 && len(unbox($r0).dataType) == 3
 
 func ardop.(*tncConn).Read(conn, p) (n, err)
   props C14
@@ -158,6 +160,7 @@ func ardop.(*TNC).Listen$1() ()
   at send#0 requires close-is-reported: $1 != nil
   at send#1 requires tnc-closed-is-reported: !ok && $1 == ErrTNCClosed
   at send#2 requires inbound-only-after-a-target-report: len(targetcall) > 0 && $0 == incoming
+  at send#2 requires connection-wired-to-this-tnc: tnc.data.isTCP == tnc.isTCP && tnc.data.dataIn == tnc.dataIn && tnc.data.dataOut == tnc.dataOut && tnc.data.ctrlOut == tnc.out && tnc.data.ctrlIn == tnc.in
   # the remembered target is set by a TARGET report only and forgotten exactly when the attempt ends
   # (CANCELPENDING, DISCONNECTED) or after the hand-over
   at assign:targetcall#0 requires forgotten-when-the-attempt-ends: (msg.cmd == cmdCancelPending || msg.cmd == cmdDisconnected) && len($0) == 0
@@ -321,11 +324,19 @@ func ardop.(dFrame).IDFrame(f) (r)
 func ardop.(*TNC).eof(tnc) ()
   props C14
   requires tnc: tnc != nil
-  at close requires closes-the-inbound-queue-of-a-live-connection: old(tnc.data) != nil && $0 == old(tnc.dataIn)
+  at close requires closes-the-inbound-queue-of-the-ended-link: $0 == old(tnc.dataIn)
   call ardop.(*tncConn).signalClosed requires the-live-connection: $0 == old(tnc.data) && $0 != nil
   ensures link-down: old(tnc.data) != nil ==> !tnc.connected && tnc.data == nil
-  ensures fresh-inbound-queue: old(tnc.data) != nil ==> tnc.dataIn != nil
+  ensures fresh-inbound-queue: tnc.dataIn != nil
   ensures always-marked-down: !tnc.connected
-  ensures queue-untouched-without-a-connection: old(tnc.data) == nil ==> tnc.dataIn == old(tnc.dataIn)
+
+
+# a dialled connection is wired to this TNC: same host-interface mode (TCP or CRC-framed serial),
+# the TNC's data queues and command channels
+func ardop.(*TNC).DialBandwidth(tnc, targetcall, bw, connectRequests) (c, err)
+  props C14
+  nosafety
+  at return requires connection-wired-to-this-tnc: $r1 == nil ==> tnc.data != nil && tnc.data.isTCP == tnc.isTCP && tnc.data.dataIn == tnc.dataIn && tnc.data.dataOut == tnc.dataOut && tnc.data.ctrlOut == tnc.out && tnc.data.ctrlIn == tnc.in
+  at return#0 requires closed-tnc-refused: tnc.closed && $r1 == ErrTNCClosed
 
 @*/
